@@ -933,9 +933,10 @@ def alloc_symmetry_rust(ctx, crate, crs):
                 calls = [i for i, t in b.calls() if t.get("f") and t["f"]["name"] == op]
                 ok = False
                 for c in cs:
-                    if c.kind == "cmp" and c.op == cmpop and c.b.get("v") == 0:
-                        edge = c.target(False) if cmpop == "Lt" else c.target(True)
-                        if calls and q.edge_dominates(b, c.bb, edge, calls[0]):
+                    # refcount < 0 (false edge), refcount >= 0 / > 0 (true edge), refcount <= 0 (false edge): any form of "not negative"
+                    if c.kind == "cmp" and c.b.get("k") == "const" and c.b.get("v") == 0 and c.op in ("Lt", "Ge", "Gt", "Le"):
+                        edge = c.target(c.op in ("Ge", "Gt"))
+                        if calls and edge is not None and q.edge_dominates(b, c.bb, edge, calls[0]):
                             ok = True
                 ctx.ob(R, b.key, "negative-refcount-is-static", ok, b.loc(), "%s only runs when the refcount is not negative" % op)
 
